@@ -121,6 +121,29 @@ def run_mc(module, cfg, name, workers=NCPU, timeout=3600, heap="8g"):
     return dict(progs=progs, states=r["distinct"], transitions=r["generated"], wall=r["wall"], text=text)
 
 
+def run_sim(module, cfg, name, num, depth, seed, workers=8, timeout=600):
+    """TLC simulation mode: random behaviours of the model; returns the programs/schedules printed."""
+    d = rundir(name)
+    per = max(1, num // workers)
+    r = run_tlc(module, cfg, os.path.join(d, "meta"), workers=workers, timeout=timeout, heap="4g",
+                extra=["-simulate", "num=%d" % per, "-depth", str(depth), "-seed", str(seed)])
+    progs = []
+    rest = []
+    for line in r["out"].splitlines():
+        m = PROG_RE.match(line)
+        if m:
+            progs.append(json.loads(unquote_tla(m.group(1))))
+        else:
+            rest.append(line)
+    text = "\n".join(rest)
+    with open(os.path.join(d, "tlc.out"), "w") as f:
+        f.write(text)
+    if "Error:" in text and "violated" in text:
+        raise Infra("TLC simulation found a model violation on %s/%s:\n%s" % (module, cfg, text[-3000:]))
+    m = re.search(r"The number of states generated: (\d+)", text)
+    return dict(progs=progs, states=int(m.group(1)) if m else 0, wall=r["wall"])
+
+
 def write_ndjson(path, items):
     with open(path, "w") as f:
         for it in items:
